@@ -24,7 +24,7 @@ theorem ri_advance {s : TS} {sz : Int} {Hm Hp : Hist} (h : RI s sz Hm Hp) (t : I
   by_cases hgt : t > l0.end_
   · rw [if_neg (not_not.mpr hgt)]
     obtain ⟨rest', hr⟩ := advLevels_head s.n t l0 rest hgt
-    obtain ⟨a, b, c, d⟩ := r.linv.advanceTo t hin hgt
+    obtain ⟨a, b, c, d, _⟩ := r.linv.advanceTo t hin hgt (by rw [r.size]; exact r.cap)
     rw [hr]
     refine ⟨⟨l0.advanceTo s.n t, rest', ?_⟩, rfl, rfl, rfl, rfl, rfl, ?_, ?_, ?_⟩
     · exact ⟨rfl, by rw [d, r.size], a, r.cap, by have := r.pt_le; show s.pendingTime ≤ _; omega,
@@ -56,7 +56,7 @@ theorem ri_lastAdd {s : TS} {sz : Int} {Hm Hp : Hist} (h : RI s sz Hm Hp) (t : I
   · rw [if_neg c]
     exact ⟨⟨l0, rest, r⟩, by omega⟩
 
-theorem ri_add {s : TS} {sz : Int} {Hm Hp : Hist} (h : RI s sz Hm Hp) (t v : Int) (hin : InI64 t)
+theorem ri_add {s : TS} {sz : Int} {Hm Hp : Hist} (h : RI s sz Hm Hp) (hZ : zeroTime % sz = 0) (t v : Int) (hin : InI64 t)
     (hnb : addBehind s t = false) :
     ∃ Hm' Hp', RI (s.addWithTime (Obs.exact v) t) sz Hm' Hp' ∧ (s.addWithTime (Obs.exact v) t).n = s.n ∧
       (∀ lo hi, sumIn lo hi Hm' + sumIn lo hi Hp' =
@@ -77,7 +77,7 @@ theorem ri_add {s : TS} {sz : Int} {Hm Hp : Hist} (h : RI s sz Hm Hp) (t v : Int
   · -- new pending bucket
     rw [if_pos b1]
     obtain ⟨a1, a2, a3, a4, a5, a6, a7, a8, a9⟩ := ri_advance h0 t hin
-    obtain ⟨m1, m2, m3, m4, m5, m6⟩ := ri_mergePending a1
+    obtain ⟨m1, m2, m3, m4, m5, m6⟩ := ri_mergePending a1 hZ
     obtain ⟨l0, rest, r⟩ := m1
     have hsz0 : s0.size0 = sz := by
       obtain ⟨l, rs, r0⟩ := h0
@@ -101,7 +101,10 @@ theorem ri_add {s : TS} {sz : Int} {Hm Hp : Hist} (h : RI s sz Hm Hp) (t v : Int
       · show ((s0.advance t).mergePending).end0 ≤ l0.end_
         rw [hend0]
       · show ((s0.advance t).mergePending).end0 % sz = 0
-        rw [hend0, ← r.size]; exact r.linv.grid
+        rw [hend0]
+        rcases r.linv.grid with g | z
+        · rw [← r.size]; exact g
+        · rw [z]; exact hZ
       · intro p hp
         simp only [List.mem_singleton] at hp
         subst hp
@@ -182,7 +185,7 @@ theorem ri_add {s : TS} {sz : Int} {Hm Hp : Hist} (h : RI s sz Hm Hp) (t v : Int
         omega
 
 
-theorem ri_catchUp {s : TS} {sz : Int} {Hm Hp : Hist} (h : RI s sz Hm Hp) (now : Int) (hin : InI64 now) :
+theorem ri_catchUp {s : TS} {sz : Int} {Hm Hp : Hist} (h : RI s sz Hm Hp) (hZ : zeroTime % sz = 0) (now : Int) (hin : InI64 now) :
     RI (s.catchUp now) sz (Hp ++ Hm) [] ∧ (s.catchUp now).n = s.n := by
   have key : ∀ s1 : TS, RI s1 sz (Hp ++ Hm) [] → s1.n = s.n →
       RI { s1 with pendingTime := s1.end0 } sz (Hp ++ Hm) [] ∧ ({ s1 with pendingTime := s1.end0 } : TS).n = s.n := by
@@ -193,21 +196,24 @@ theorem ri_catchUp {s : TS} {sz : Int} {Hm Hp : Hist} (h : RI s sz Hm Hp) (now :
     · show s1.end0 ≤ l0.end_
       rw [he]
     · show s1.end0 % sz = 0
-      rw [he, ← r.size]; exact r.linv.grid
+      rw [he]
+      rcases r.linv.grid with g | z
+      · rw [← r.size]; exact g
+      · rw [z]; exact hZ
   unfold TS.catchUp
   by_cases c : s.end0 < now
   · rw [if_pos c]
     obtain ⟨a1, _, _, _, _, a6, _⟩ := ri_advance h now hin
-    obtain ⟨m1, _, _, m4, _⟩ := ri_mergePending a1
+    obtain ⟨m1, _, _, m4, _⟩ := ri_mergePending a1 hZ
     exact key _ m1 (by rw [m4, a6])
   · rw [if_neg c]
-    obtain ⟨m1, _, _, m4, _⟩ := ri_mergePending h
+    obtain ⟨m1, _, _, m4, _⟩ := ri_mergePending h hZ
     exact key _ m1 m4
 
 /-- The fresh / cleared state. -/
-theorem linv_fresh (n : Nat) (sz : Int) (hn : 1 ≤ n) (hsz : 0 < sz) (hZ : zeroTime % sz = 0) :
+theorem linv_fresh (n : Nat) (sz : Int) (hn : 1 ≤ n) (hsz : 0 < sz) :
     LInv (Level.fresh n sz) n [] := by
-  refine ⟨hn, hsz, by simp [Level.fresh], by simp [Level.fresh]; omega, hZ, ?_, by simp⟩
+  refine ⟨hn, hsz, by simp [Level.fresh], by simp [Level.fresh]; omega, Or.inr rfl, ?_, by simp⟩
   intro i _
   unfold logical Level.fresh
   simp only [sumIn]
@@ -218,7 +224,7 @@ theorem linv_fresh (n : Nat) (sz : Int) (hn : 1 ≤ n) (hsz : 0 < sz) (hZ : zero
 
 theorem ri_init (n : Nat) (sz : Int) (rest : List Int) (hn : 1 ≤ n) (hsz : 0 < sz) (hcap : sz * n ≤ maxDur)
     (hZ : zeroTime % sz = 0) : RI (TS.init n (sz :: rest)) sz [] [] := by
-  refine ⟨Level.fresh n sz, rest.map (Level.fresh n), ⟨by simp [TS.init], rfl, linv_fresh n sz hn hsz hZ, hcap,
+  refine ⟨Level.fresh n sz, rest.map (Level.fresh n), ⟨by simp [TS.init], rfl, linv_fresh n sz hn hsz, hcap,
     Int.le_refl _, hZ, by simp, fun _ => ⟨rfl, rfl⟩, fun h => by simp [TS.init] at h, by simp⟩⟩
 
 theorem ri_clear {s : TS} {sz : Int} {Hm Hp : Hist} (h : RI s sz Hm Hp) (hZ : zeroTime % sz = 0) :
@@ -227,7 +233,7 @@ theorem ri_clear {s : TS} {sz : Int} {Hm Hp : Hist} (h : RI s sz Hm Hp) (hZ : ze
   have hsp := r.linv.szpos
   rw [r.size] at hsp
   refine ⟨⟨Level.fresh s.n sz, rest.map (fun l => Level.fresh s.n l.size), ⟨by simp [TS.clear, r.lev, r.size], rfl,
-    linv_fresh s.n sz r.linv.npos hsp hZ, r.cap, Int.le_refl _, hZ, by simp, fun _ => ⟨rfl, rfl⟩,
+    linv_fresh s.n sz r.linv.npos hsp, r.cap, Int.le_refl _, hZ, by simp, fun _ => ⟨rfl, rfl⟩,
     fun h => by simp [TS.clear] at h, by simp⟩⟩, rfl⟩
 
 /-- `(a, b]` is aligned to the bucket grid of the finest level and starts inside its window. -/
@@ -249,10 +255,10 @@ theorem pickLevel_first (n : Nat) (a : Int) (l0 : Level) (rest : List Level)
     rw [if_pos this]
 
 /-- `Range(a, b)` on a state that satisfies the invariant. -/
-theorem ri_range {s : TS} {sz : Int} {Hm Hp : Hist} (h : RI s sz Hm Hp) (a b : Int)
+theorem ri_range {s : TS} {sz : Int} {Hm Hp : Hist} (h : RI s sz Hm Hp) (hZ : zeroTime % sz = 0) (a b : Int)
     (hal : alignedFinest s a b = true) :
     (s.range a b).2 = some ⟨sumIn a b Hm + sumIn a b Hp, false⟩ := by
-  obtain ⟨m1, _, m3, m4, _, m6⟩ := ri_mergePending h
+  obtain ⟨m1, _, m3, m4, _, m6⟩ := ri_mergePending h hZ
   obtain ⟨l0, rest, r0⟩ := h
   obtain ⟨l1, rest1, hl1, he, hs⟩ := m6 l0 rest r0.lev
   obtain ⟨l1', rest1', r1⟩ := m1
@@ -378,18 +384,18 @@ theorem ri_run (sz : Int) (hZ : zeroTime % sz = 0) (ops : List Op) :
     | add t v =>
       simp only [timesInRange, Bool.and_eq_true, inI64, decide_eq_true_eq] at hin
       simp only [noAddBehind, Bool.and_eq_true, Bool.not_eq_true'] at hnb
-      obtain ⟨Hm', Hp', r', _, hs, _⟩ := ri_add h t v hin.1 hnb.1
+      obtain ⟨Hm', Hp', r', _, hs, _⟩ := ri_add h hZ t v hin.1 hnb.1
       exact ih _ Hm' Hp' ((t, v) :: H0) r' hin.2 hnb.2 (by
         intro lo hi; rw [hs lo hi, hH lo hi]; simp only [sumIn])
     | total =>
-      obtain ⟨m1, _⟩ := ri_mergePending h
+      obtain ⟨m1, _⟩ := ri_mergePending h hZ
       exact ih _ _ _ H0 m1 hin hnb (by intro lo hi; rw [sumIn_append]; simp only [sumIn]; have := hH lo hi; omega)
     | latest now level num =>
       simp only [timesInRange, Bool.and_eq_true, inI64, decide_eq_true_eq] at hin
       have hst : s.step (.latest now level num) = s.catchUp now := latest_state s now level num
       rw [hst]
       simp only [noAddBehind, hst] at hnb
-      obtain ⟨m1, _⟩ := ri_catchUp h now hin.1
+      obtain ⟨m1, _⟩ := ri_catchUp h hZ now hin.1
       exact ih _ _ _ H0 m1 hin.2 hnb (by intro lo hi; rw [sumIn_append]; simp only [sumIn]; have := hH lo hi; omega)
     | latestBuckets now level num =>
       simp only [timesInRange, Bool.and_eq_true, inI64, decide_eq_true_eq] at hin
@@ -400,7 +406,7 @@ theorem ri_run (sz : Int) (hZ : zeroTime % sz = 0) (ops : List Op) :
       · rw [e] at hnb ⊢
         exact ih _ Hm Hp H0 h hin.2 hnb hH
       · rw [e] at hnb ⊢
-        obtain ⟨m1, _⟩ := ri_catchUp h now hin.1
+        obtain ⟨m1, _⟩ := ri_catchUp h hZ now hin.1
         exact ih _ _ _ H0 m1 hin.2 hnb (by intro lo hi; rw [sumIn_append]; simp only [sumIn]; have := hH lo hi; omega)
     | computeRange a b num =>
       have hstep : s.step (.computeRange a b num) = (s.computeRange a b num).1 := rfl
@@ -411,7 +417,7 @@ theorem ri_run (sz : Int) (hZ : zeroTime % sz = 0) (ops : List Op) :
       · rw [e] at hnb ⊢
         exact ih _ Hm Hp H0 h hin hnb hH
       · rw [e] at hnb ⊢
-        obtain ⟨m1, _⟩ := ri_mergePending h
+        obtain ⟨m1, _⟩ := ri_mergePending h hZ
         exact ih _ _ _ H0 m1 hin hnb (by intro lo hi; rw [sumIn_append]; simp only [sumIn]; have := hH lo hi; omega)
     | clear =>
       simp only [noAddBehind] at hnb
@@ -428,7 +434,7 @@ theorem range_exact_general (n : Nat) (sz : Int) (rest : List Int) (hn : 1 ≤ n
     (hal : alignedFinest ((TS.init n (sz :: rest)).run ops) a b = true) :
     (((TS.init n (sz :: rest)).run ops).range a b).2 = some ⟨obsIn a b 0 ops, false⟩ := by
   obtain ⟨Hm, Hp, r, hs⟩ := ri_run sz hZ ops _ [] [] [] (ri_init n sz rest hn hsz hcap hZ) hin hnb (by intro lo hi; rfl)
-  rw [ri_range r a b hal, hs a b]
+  rw [ri_range r hZ a b hal, hs a b]
   have := obsIn_histList a b ops []
   simp only [sumIn] at this
   rw [this]
